@@ -13,7 +13,8 @@ from .units import AnalysisBroken
 
 VERIF = units.VERIF
 # evidence/replay files describe /repo; runs against a scratch copy (SQ_REPO) write theirs elsewhere
-OUT = VERIF if os.path.realpath(units.REPO) == "/repo" else os.environ.get("SQ_OUT", os.path.join(os.environ.get("SQ_CACHE", "/tmp/sqcheck-scratch"), "out"))
+OUT = (VERIF if os.path.realpath(units.REPO) == "/repo" and not units.OVERLAY else
+       os.environ.get("SQ_OUT", os.path.join(units.OVERLAY_CACHE or os.environ.get("SQ_CACHE", "/tmp/sqcheck-scratch"), "out")))
 KNOWN = os.path.join(VERIF, "known_findings.txt")
 
 
@@ -46,6 +47,8 @@ class Check:
                       "callers_checked": 0, "writers_checked": 0}
         self.known = load_known()
         self._facts = None
+        self.fn_objs = {}
+        self.facts_objs = []
 
     # ------------------------------------------------------------------ facts / flows
     def facts(self, unit_list, whole=False):
@@ -53,11 +56,13 @@ class Check:
         self.stats["units"] = max(self.stats["units"], len(f.all_units))
         self.stats["reextracted"] += f.stats.get("reextracted", 0)
         self._facts = f
+        self.facts_objs.append(f)
         return f
 
     def flow(self, fn, **kw):
         fl = F.Flow(fn, **kw)
         self.stats["functions"].add(fn.name)
+        self.fn_objs[(fn.name, fn.file, fn.line)] = fn
         self.stats["product_nodes"] += len(fl.IN)
         self.stats["edges_pruned"] += fl.edges_pruned
         self.stats["sites"] += len(fl.sites)
@@ -426,6 +431,8 @@ class Check:
             "wall_s": round(wall, 3),
             "violations": len(self.violations),
         }
+        for k, v in getattr(self, "extra", {}).items():
+            ev["coverage"][k] = v
         if broken:
             ev["coverage"]["analysis_broken"] = str(broken)[:2000]
         os.makedirs(os.path.join(OUT, "evidence"), exist_ok=True)
